@@ -888,20 +888,50 @@ C20_Step(c, c2, g, ln) ==
        IF judged /\ ~argOK THEN 1 ELSE 0)
 C20_End(c, g) == OKr(g)
 
+
+-----------------------------------------------------------------------------
+(* C03  Packet framing is independent of how TCP segments the byte stream *)
+\* A chunked trace names (meta.ref) the trace in which the same packets were delivered one per chunk to an identically
+\* prepared client (meta.p0 preparation lines).  After every chunk the effects must be exactly those the reference shows
+\* for the packets that the chunk completes.  ghost: rest = bytes not yet framed, m = packets completed so far
+C03_0 == [rest |-> <<>>, m |-> 0]
+RefLine(ref, p0, i) == T[Idx[ref][1] + p0 + i - 1]
+RefCount(ref, p0) == Idx[ref][2] - Idx[ref][1] + 1 - p0
+C03_Step(c, c2, g, ln) ==
+  IF "meta" \notin DOMAIN ln \/ ln.meta.ref = 0 \/ ln.n <= ln.meta.p0 \/ ln.stim.op # "recv" THEN OKr(g)
+  ELSE LET ref == ln.meta.ref  p0 == ln.meta.p0
+           f == Frame(g.rest \o ln.stim.bytes)
+           k == Len(f.pkts)
+           tooMany == g.m + k > RefCount(ref, p0)
+           expected == IF tooMany THEN <<>> ELSE FlattenSeq([i \in 1..k |-> RefLine(ref, p0, g.m + i).fx])
+           same == \A i \in 1..k : RefLine(ref, p0, g.m + i).stim.bytes = f.pkts[i]
+       IN FirstBad([rest |-> f.rest, m |-> g.m + k],
+            << <<~tooMany, "C03.more_packets_than_sent", <<g.m + k>> >>,
+               <<tooMany \/ same, "C03.harness_streams_differ", <<>> >>,
+               <<tooMany \/ ln.fx = expected, "C03.effects_differ_from_one_packet_per_chunk", <<ln.n, "packets", g.m + 1, g.m + k, Len(ln.fx), Len(expected)>> >> >>, k)
+C03_End(c, g) ==
+  LET last == T[Idx[tid][2]] IN
+  IF "meta" \notin DOMAIN last \/ last.meta.ref = 0 THEN OKr(g)
+  ELSE LET ref == last.meta.ref  p0 == last.meta.p0  rl == T[Idx[ref][2]] IN
+       FirstBad(g, << <<g.m = RefCount(ref, p0) /\ g.rest = <<>>, "C03.packet_not_delivered", <<g.m, RefCount(ref, p0)>> >>,
+                      <<last.post = rl.post, "C03.final_state_differs", <<>> >> >>, 1)
+
 -----------------------------------------------------------------------------
 (* engine *)
-Gh0 == CASE Prop = "C18" -> C18_0 [] Prop = "C14" -> <<>> [] Prop = "C04" -> C04_0 [] Prop = "C05" -> C05_0 [] Prop = "C10" -> C10_0 [] Prop = "C13" -> C13_0 [] Prop = "C06" -> C06_0 [] Prop = "C07" -> C07_0 [] Prop = "C11" -> C11_0 [] Prop = "C15" -> C15_0 [] Prop = "C16" -> C16_0 [] Prop = "C20" -> C20_0 [] OTHER -> <<>>
+Gh0 == CASE Prop = "C18" -> C18_0 [] Prop = "C14" -> <<>> [] Prop = "C04" -> C04_0 [] Prop = "C05" -> C05_0 [] Prop = "C10" -> C10_0 [] Prop = "C13" -> C13_0 [] Prop = "C06" -> C06_0 [] Prop = "C07" -> C07_0 [] Prop = "C11" -> C11_0 [] Prop = "C15" -> C15_0 [] Prop = "C16" -> C16_0 [] Prop = "C20" -> C20_0 [] Prop = "C03" -> C03_0 [] OTHER -> <<>>
 PropStep(c, c2, g, ln) ==
   CASE Prop = "C18" -> C18_Step(c, c2, g, ln) [] Prop = "C14" -> C14_Step(c, c2, g, ln)
     [] Prop = "C04" -> C04_Step(c, c2, g, ln) [] Prop = "C05" -> C05_Step(c, c2, g, ln)
     [] Prop = "C06" -> C06_Step(c, c2, g, ln) [] Prop = "C07" -> C07_Step(c, c2, g, ln)
     [] Prop = "C11" -> C11_Step(c, c2, g, ln) [] Prop = "C12" -> C12_Step(c, c2, g, ln)
     [] Prop = "C15" -> C15_Step(c, c2, g, ln) [] Prop = "C16" -> C16_Step(c, c2, g, ln) [] Prop = "C20" -> C20_Step(c, c2, g, ln)
+    [] Prop = "C03" -> C03_Step(c, c2, g, ln)
     [] Prop = "C13" -> C13_Step(c, c2, g, ln) [] Prop = "C08" -> C08_Step(c, c2, g, ln)
     [] Prop = "C10" -> C10_Step(c, c2, g, ln) [] Prop = "C09" -> C09_Step(c, c2, g, ln) [] Prop = "C17" -> C17_Step(c, c2, g, ln)
     [] OTHER -> OKr(g)
 PropEnd(c, g) ==
   CASE Prop = "C18" -> C18_End(c, g) [] Prop = "C14" -> C14_End(c, g) [] Prop = "C04" -> C04_End(c, g) [] Prop = "C05" -> C05_End(c, g)
+    [] Prop = "C03" -> C03_End(c, g)
     [] OTHER -> OKr(g)
 
 MInit == /\ tid \in 1..Len(Idx) /\ l = Idx[tid][1] /\ verdict = "run" /\ core = Core0 /\ gh = [g |-> Gh0, hits |-> 0]
